@@ -322,22 +322,21 @@ theorem assigned_held_exactly {a : AttrSpec} {hc : Bool} {mem : List PStr} {st s
     (hi : a.conv.idLike = true) (h : setValue a hc mem st v = .ok st') :
     st'.value = (if a.multivalued then .list (itemsOf v) else v) ∧ st'.units = st.units := by
   simp only [setValue, bind_ok, pure_ok] at h
-  obtain ⟨cur, _, nv, hnv, rfl⟩ := h
+  obtain ⟨nv, hnv, rfl⟩ := h
   exact ⟨convertValue_idLike hi hnv, rfl⟩
 
 /-- every converting attribute kind: as many values are held as were assigned, in the same order, each the
 converter's image of the one assigned -/
 theorem assigned_held_leafwise {a : AttrSpec} {hc : Bool} {mem : List PStr} {st st' : AttrState} {v : PyVal}
     (hl : a.conv.leafOnly = true) (h : setValue a hc mem st v = .ok st') :
-    ∃ cur, curRcFor a st.value = .ok cur ∧
-      All2 (fun x y => applyConv a.conv hc cur mem x = .ok y) (flattenV v) (flattenV st'.value) := by
+    All2 (fun x y => applyConv a.conv hc (curRcFor a st.value) mem x = .ok y) (flattenV v) (flattenV st'.value) := by
   simp only [setValue, bind_ok, pure_ok] at h
-  obtain ⟨cur, hcur, nv, hnv, rfl⟩ := h
-  exact ⟨cur, hcur, convertValue_leaves hl hnv⟩
+  obtain ⟨nv, hnv, rfl⟩ := h
+  exact convertValue_leaves hl hnv
 
 /-- numbers: an accepted value is held as the integer it stands for, or as the double with the same bits
 (a double) / the nearest double (an integer) -/
-theorem numeric_value_kept {intOnly hc : Bool} {rc : Option Nat} {mem : List PStr} {v r : PyVal}
+theorem numeric_value_kept {intOnly hc : Bool} {rc : Except Err (Option Nat)} {mem : List PStr} {v r : PyVal}
     (h : applyConv (.numeric intOnly) hc rc mem v = .ok r) :
     (∃ i, r = .int i ∧ intOf v = some i) ∨
     (∃ f, r = .float f ∧ (v = .float f ∨ (∃ i, v = .int i ∧ intToF64R i = some f) ∨
@@ -347,12 +346,12 @@ theorem numeric_value_kept {intOnly hc : Bool} {rc : Option Nat} {mem : List PSt
 theorem int_as_double_exact (i : Int) (h : i.natAbs ≤ 2 ^ 53) : ∃ f, intToF64R i = some f ∧ f64ToInt f = some i :=
   intToF64R_exact i h
 
-theorem status_value_kept {hc : Bool} {rc : Option Nat} {mem : List PStr} {v r : PyVal}
+theorem status_value_kept {hc : Bool} {rc : Except Err (Option Nat)} {mem : List PStr} {v r : PyVal}
     (h : applyConv .status hc rc mem v = .ok r) :
     ∃ i, r = .int i ∧ (i = 0 ∨ i = 1) ∧ (intOf v = some i ∨ ∃ s ec p, v = .str s ec p ∧ p.asInt = some i) :=
   status_spec h
 
-theorem dtime_value_kept {af hc : Bool} {rc : Option Nat} {mem : List PStr} {v r : PyVal}
+theorem dtime_value_kept {af hc : Bool} {rc : Except Err (Option Nat)} {mem : List PStr} {v r : PyVal}
     (h : applyConv (.dtime af) hc rc mem v = .ok r) :
     (∃ t, r = .dtime t ∧ (v = .dtime t ∨ ∃ s ec p, v = .str s ec p ∧ p.asDtime = some t)) ∨
     (af = true ∧ ∃ f, r = .float f) := dtime_spec h
